@@ -83,8 +83,9 @@ def gen_step_settings(rng, template, nsteps):
             tb = rng.choice(T.TABLES[template])
             s["points"] = {tb: [[0.0, rng.choice([0.5, 2.0])], [4.0, rng.choice([0.0, 3.0])], [30.0, 1.0]]}
         else:
-            c = rng.choice(T.CONSTANTS[template])
-            s["constants"] = {c: rng.choice([0.0, 0.5, 2.0, 3.0, 7.0])}
+            cs = rng.sample(T.CONSTANTS[template], min(len(T.CONSTANTS[template]), rng.choice([1, 1, 2, 3])))
+            vals = rng.sample([0.0, 0.5, 2.0, 3.0, 7.0], len(cs))         # several constants in one step get DIFFERENT values
+            s["constants"] = {c: v for c, v in zip(cs, vals)}
         out[str(k)] = s
     return out
 
